@@ -22,10 +22,66 @@ def group_ops(d, name):
     return [np.asarray(g) for g in ref.named_group(name, d)]
 
 
+_SRC_HASH = None
+_FILTERS = {}
+
+
+def _src_hash():
+    """Hash of the library's geometric package: the on-disk filter cache must never outlive a source change."""
+    global _SRC_HASH
+    if _SRC_HASH is None:
+        import glob
+        import hashlib
+
+        h = hashlib.sha1()
+        base = os.path.dirname(os.path.abspath(geom.__file__))
+        for f in sorted(glob.glob(os.path.join(base, "*.py"))):
+            with open(f, "rb") as fh:
+                h.update(fh.read())
+        _SRC_HASH = h.hexdigest()[:16]
+    return _SRC_HASH
+
+
+def unique_filters(d, group, M, k, p, scale):
+    """geom.get_unique_invariant_filters(...) as a stacked array (n, spatial, tensor) or None; memory + disk cache."""
+    key = (d, group, M, k, p, scale)
+    if key in _FILTERS:
+        return _FILTERS[key]
+    cdir = os.path.join(VERIF_ROOT, ".work", "banks", _src_hash())
+    path = os.path.join(cdir, f"d{d}_{group}_M{M}_k{k}_p{p}_{scale}.npy")
+    arr = None
+    if os.path.exists(path):
+        try:
+            arr = np.load(path)
+        except Exception:  # noqa: BLE001  (partially written by another process: recompute)
+            arr = None
+    if arr is None:
+        fl = geom.get_unique_invariant_filters(M, k, p, d, group_ops(d, group), scale)
+        arr = np.stack([np.asarray(f.data) for f in fl]) if len(fl) else np.zeros((0,) + (M,) * d + (d,) * k, dtype=np.float32)
+        try:
+            os.makedirs(cdir, exist_ok=True)
+            tmp = path + f".{os.getpid()}.tmp.npy"
+            np.save(tmp, arr)
+            os.replace(tmp, path)
+        except OSError:
+            pass
+    _FILTERS[key] = arr
+    return arr
+
+
 def bank(d, group="B", Ms=(3,), ks=(0, 1, 2), parities=(0, 1), scale="normalize"):
+    """The filter bank a user would get from geom.get_invariant_filters(Ms, ks, parities, d, operators, scale) (single M):
+    assembled per (k,parity) from get_unique_invariant_filters (C03 checks that the two agree)."""
     key = (d, group, tuple(Ms), tuple(ks), tuple(parities), scale)
     if key not in _BANKS:
-        _BANKS[key] = geom.get_invariant_filters(list(Ms), list(ks), list(parities), d, group_ops(d, group), scale)
+        assert len(Ms) == 1
+        blocks = {}
+        for k in ks:
+            for p in parities:
+                arr = unique_filters(d, group, Ms[0], k, p, scale)
+                if len(arr):
+                    blocks[(k, p)] = jnp.asarray(arr)
+        _BANKS[key] = geom.MultiImage(blocks, d)
     return _BANKS[key]
 
 
